@@ -433,7 +433,10 @@ def eval_melody(inp, r):
                          # which the library reads as "no pitch")
                          "base_frequency": [10.0, 20.0, 100.0, 300.0, 1000.0]}, 0.6)
     if r.random() < 0.2:
-        kw["kind"] = pick(r, ["nearest", "zero", "slinear", "quadratic", "cubic"])
+        # spline kinds need a handful of samples on both sides (scipy rejects fewer)
+        long_enough = len(inp["ref_time"]) >= 6 and len(inp["est_time"]) >= 6
+        kw["kind"] = pick(r, ["nearest", "zero", "slinear", "quadratic", "cubic"]
+                          if long_enough else ["nearest", "zero", "slinear"])
     args = (inp["ref_time"], inp["ref_freq"], inp["est_time"], inp["est_freq"],
             inp["est_voicing"], inp["ref_reward"])
     return args, kw
